@@ -718,13 +718,19 @@ def r45_strptime_partition(ctx):
     tables = {"get_date_translate_info": T.date_info(2),
               "get_time_translate_info": T.time_info(),
               "get_time_zone_translate_info": T.zone_info()}
+    loops = []      # (node for the report, iterated call, scope to search)
     for n in walk_no_nested(f.node):
-        if not (isinstance(n, ast.For) and isinstance(n.iter, ast.Call)):
-            continue
-        getter = U(n.iter.func).split(".")[-1]
+        if isinstance(n, ast.For) and isinstance(n.iter, ast.Call):
+            loops.append((n, n.iter, n))
+        elif isinstance(n, (ast.ListComp, ast.SetComp, ast.GeneratorExp)):
+            for g in n.generators:
+                if isinstance(g.iter, ast.Call):
+                    loops.append((n, g.iter, n))
+    for n, it, scope in loops:
+        getter = U(it.func).split(".")[-1]
         if getter not in tables:
             continue
-        cols = {x.slice.value for x in ast.walk(n)
+        cols = {x.slice.value for x in ast.walk(scope)
                 if isinstance(x, ast.Subscript) and isinstance(
                     x.slice, ast.Constant) and isinstance(
                         x.slice.value, int)}
@@ -765,8 +771,7 @@ def r45_strptime_partition(ctx):
             if tail and "time_zone" in U(tail[0]) and isinstance(
                     tail[0], ast.Assign):
                 zone_else = True
-    lists = [U(n.iter.func).split(".")[-1] for n in walk_no_nested(f.node)
-             if isinstance(n, ast.For) and isinstance(n.iter, ast.Call)]
+    lists = [U(it.func).split(".")[-1] for _, it, _ in loops]
     if "get_time_zone_translate_info" not in lists:
         rep.check(zone_else, rule, ctx.fkey(f, None, "zone-bucket"), f.loc(),
                   "keys in neither the date nor the time list go to the "
